@@ -134,24 +134,44 @@ func needsInitCheck(md protoreflect.MessageDescriptor) bool {
 	return needsInitCheckLocked(md)
 }
 
-func needsInitCheckLocked(md protoreflect.MessageDescriptor) (has bool) {
+func needsInitCheckLocked(md protoreflect.MessageDescriptor) bool {
 	if v, ok := needsInitCheckMap.Load(md); ok {
-		// If has is true, we've previously determined that this message
-		// needs init checks.
-		//
-		// If has is false, we've previously determined that it can never
-		// be uninitialized.
-		//
-		// If has is not a bool, we've just encountered a cycle in the
-		// message graph. In this case, it is safe to return false: If
-		// the message does have required fields, we'll detect them later
-		// in the graph traversal.
-		has, ok := v.(bool)
-		return ok && has
+		return v.(bool)
 	}
-	needsInitCheckMap.Store(md, struct{}{}) // avoid cycles while descending into this message
+	visited := make(map[protoreflect.MessageDescriptor]struct{})
+	has := needsInitCheckWalk(md, visited)
+	if !has {
+		// The walk ran to completion without finding a required field or an
+		// extension range: none of the messages it visited can reach one.
+		for vmd := range visited {
+			needsInitCheckMap.Store(vmd, false)
+		}
+	}
+	return has
+}
+
+// needsInitCheckWalk reports whether md, or a message reachable from md
+// through messages not visited yet, has required fields or extension ranges.
+//
+// needsInitCheckMap only ever holds exact results. A true result is stored
+// at once. A false result of a nested call is not stored: it may have been
+// computed while a message further up on a cycle was still being explored,
+// in which case it only says that nothing was found without going through
+// that message.
+func needsInitCheckWalk(md protoreflect.MessageDescriptor, visited map[protoreflect.MessageDescriptor]struct{}) (has bool) {
+	if v, ok := needsInitCheckMap.Load(md); ok {
+		return v.(bool)
+	}
+	if _, ok := visited[md]; ok {
+		// Either a cycle, or a message that was already explored without
+		// finding anything: there is nothing new to learn from it.
+		return false
+	}
+	visited[md] = struct{}{}
 	defer func() {
-		needsInitCheckMap.Store(md, has)
+		if has {
+			needsInitCheckMap.Store(md, true)
+		}
 	}()
 	if md.RequiredNumbers().Len() > 0 {
 		return true
@@ -166,7 +186,7 @@ func needsInitCheckLocked(md protoreflect.MessageDescriptor) (has bool) {
 			fd = fd.MapValue()
 		}
 		fmd := fd.Message()
-		if fmd != nil && needsInitCheckLocked(fmd) {
+		if fmd != nil && needsInitCheckWalk(fmd, visited) {
 			return true
 		}
 	}
